@@ -291,7 +291,18 @@ impl C08 {
                 };
                 let base = run_stack(seq, sib, None, case.expire_at).map_err(pan)?;
                 out.execs += 1;
-                if expand_replace(&base.calls) != ok.calls {
+                // the indices a delete/insert carries for the other side are
+                // not part of this clause: compare with them masked
+                let mask = |cs: &[Call]| -> Vec<Call> {
+                    cs.iter()
+                        .map(|c| match *c {
+                            Call::Delete(o, l, _) => Call::Delete(o, l, 0),
+                            Call::Insert(_, n, l) => Call::Insert(0, n, l),
+                            other => other,
+                        })
+                        .collect()
+                };
+                if mask(&expand_replace(&base.calls)) != mask(&ok.calls) {
                     return fail(
                         "c08.default_replace",
                         "hook without replace override did not get delete followed by insert".into(),
